@@ -166,6 +166,12 @@ func runModule(t *testing.T, mk func() *adapter, n hx.N) {
 							a.family(t, l[j])
 							c.Op("edit: rule %d of an earlier list changes its strategy/behaviour family: %s", j, a.key(l[j]))
 							sawEdit = true
+						} else if len(idx) > 1 && rapid.IntRange(0, 3).Draw(t, "reorder") == 0 {
+							// the same rules in another order, nothing else changed: the latest order is the one reported and consulted
+							j2 := idx[rapid.IntRange(0, len(idx)-1).Draw(t, "swapWith")]
+							l[j], l[j2] = l[j2], l[j]
+							c.Op("edit: rules %d and %d of an earlier list change places", j, j2)
+							sawEdit = sawEdit || j != j2
 						} else if rapid.IntRange(0, 2).Draw(t, "twin") == 0 {
 							// the same rule listed twice (equal values, distinct objects), next to each other or at the end
 							tw := a.clone(l[j])
